@@ -197,6 +197,8 @@ func stdByteArray(b []byte) string {
 	return "[" + strings.Join(parts, " ") + "]"
 }
 
+func timeOffsetMin(t time.Time) int { _, off := t.Zone(); return off / 60 }
+
 func longestZeroRun(ip net.IP) int {
 	best, cur := 0, 0
 	for i := 0; i < 16; i += 2 {
@@ -216,11 +218,20 @@ func longestZeroRun(ip net.IP) int {
 // stage A
 
 type vector struct {
+	Z  string `json:"z"`
 	T  string `json:"t"`
 	V  []int  `json:"v"`
 	E  string `json:"e"`
 	M  string `json:"m"`
 	KF string `json:"kf"`
+}
+
+func toInts(b []byte) []int {
+	a := make([]int, len(b))
+	for i, x := range b {
+		a[i] = int(x)
+	}
+	return a
 }
 
 func toBytes(a []int) []byte {
@@ -289,6 +300,26 @@ func appendersFor(v vector) (calls map[string]fieldCall, std string, err error) 
 	case "bytes":
 		std = stdByteArray(b)
 		calls["ByteArray"] = func(l *fastlog.Line) *fastlog.Line { return l.ByteArray("n", b) }
+	case "time":
+		// a time value is an instant *and* a location; the same instant is rendered in other locations just before
+		t := time.Unix(int64(v.V[0]), int64(v.V[1])*1e6).In(time.FixedZone("vec", v.V[2]*60))
+		std = t.Format(time.StampMilli)
+		calls["Time"] = func(l *fastlog.Line) *fastlog.Line {
+			for _, other := range []*time.Location{time.UTC, time.FixedZone("plus10", 36000), time.FixedZone("nfld", -12600)} {
+				o := t.In(other)
+				if got := lg.Msg("").Time("n", o).ToString(); got != prefix+" n="+o.Format(time.StampMilli) {
+					fail("C20:Time:text", fmt.Sprintf("Time renders %q, reference text is %q", got, prefix+" n="+o.Format(time.StampMilli)),
+						map[string]interface{}{"op": "vector", "app": "Time", "t": "time", "v": []int{v.V[0], v.V[1], timeOffsetMin(o)}, "e": " n=" + o.Format(time.StampMilli)})
+				}
+			}
+			return l.Time("n", t)
+		}
+	case "addr6z":
+		a := netip.AddrFrom16(*(*[16]byte)(b)).WithZone(v.Z)
+		std = stdAddr(a)
+		calls["IP"] = func(l *fastlog.Line) *fastlog.Line { return l.IP("n", a) }
+		calls["Struct(Addr)"] = nil // rendered in stage D (framing of packet.Addr is not a single field)
+		delete(calls, "Struct(Addr)")
 	default:
 		return nil, "", fmt.Errorf("unknown vector type %q", v.T)
 	}
@@ -342,7 +373,7 @@ func stageA(path string) error {
 			if v.KF != "none" && app == "IPSlice" {
 				class = v.KF
 			}
-			c := map[string]interface{}{"op": "vector", "app": app, "t": v.T, "v": v.V, "e": v.E}
+			c := map[string]interface{}{"op": "vector", "app": app, "t": v.T, "v": v.V, "e": v.E, "z": v.Z}
 			got, pan := render(call)
 			if judgeField(app, class, got, pan, v.E, c) {
 				// mechanism conformance is only meaningful where the mechanism text differs from the reference
@@ -490,6 +521,29 @@ func stageB(rng *rand.Rand, thorough bool) {
 		cs := map[string]interface{}{"op": "sweep", "kind": "string", "x": s}
 		sweepField("string", "String", "text", "\""+s+"\"", func(l *fastlog.Line) *fastlog.Line { return l.String("n", s) }, cs)
 		sweepField("bool", "Bool", "text", strconv.FormatBool(i%2 == 0), func(l *fastlog.Line) *fastlog.Line { return l.Bool("n", i%2 == 0) }, cs)
+	}
+	// time values in several locations, rendered back to back (same instant, same second, different location), and
+	// zone-qualified addresses with zones of every length 0..24
+	locs := []*time.Location{time.UTC, time.Local, time.FixedZone("a", 36000), time.FixedZone("b", -12600), time.FixedZone("c", 20700), time.FixedZone("d", -43200), time.FixedZone("e", 50400)}
+	zoneAlpha := "enp0s31f6vlan1234br0wxyz"
+	for i := 0; i < n/4; i++ {
+		base := time.Unix(rng.Int63n(4102444800), rng.Int63n(1e9))
+		for j := 0; j < 4; j++ {
+			t := base.Add(time.Duration(rng.Intn(900)) * time.Millisecond).In(locs[rng.Intn(len(locs))])
+			ct := map[string]interface{}{"op": "vector", "app": "Time", "t": "time", "v": []int{int(t.Unix()), t.Nanosecond() / 1e6, timeOffsetMin(t)}, "e": " n=" + t.Format(time.StampMilli)}
+			sweepField("time-location", "Time", "text", t.Format(time.StampMilli), func(l *fastlog.Line) *fastlog.Line { return l.Time("n", t) }, ct)
+		}
+		var ab [16]byte
+		rng.Read(ab[:])
+		ab[0], ab[1] = 0xfe, 0x80
+		for z := rng.Intn(3); z > 0; z-- {
+			g := 1 + rng.Intn(7)
+			ab[2*g], ab[2*g+1] = 0, 0
+		}
+		zone := zoneAlpha[:i%25]
+		a := netip.AddrFrom16(ab).WithZone(zone)
+		cz := map[string]interface{}{"op": "vector", "app": "IP", "t": "addr6z", "v": toInts(ab[:]), "z": zone, "e": " n=" + a.String()}
+		sweepField("addr6zone", "IP", "text", a.String(), func(l *fastlog.Line) *fastlog.Line { return l.IP("n", a) }, cz)
 	}
 	// string arrays and IP arrays that fit: elements in order, each rendered as the reference does
 	for i := 0; i < n/10; i++ {
@@ -1150,6 +1204,21 @@ func stageD(seed int64, thorough bool) {
 		view("ARP", func() interface{} { return packet.ARP(arp) })
 		view("Addr", func() interface{} { return packet.Addr{MAC: sm, IP: s6, Port: uint16(rng.Intn(3) * 4000)} })
 		view("Addr4", func() interface{} { return packet.Addr{MAC: sm, IP: s4} })
+		// zone-qualified link-local addresses (what a socket reports for fe80::/10 peers), zones of 1..24 characters
+		zone := "enp0s31f6vlan1234br0wxyz"[:1+r%24]
+		lla := netip.AddrFrom16([16]byte{0xfe, 0x80, 0x11, 0x11, 0x22, 0x22, 0x33, 0x33, 0x44, 0x44, 0x55, 0x55, 0x66, 0x66, byte(r), 0x77}).WithZone(zone)
+		view("Addr(zone)", func() interface{} { return packet.Addr{MAC: sm, IP: lla, Port: 546} })
+		view("Notification(zone)", func() interface{} { return packet.Notification{Addr: packet.Addr{MAC: sm, IP: lla}, Online: true} })
+		view("MACEntry(zone)", func() interface{} {
+			return &packet.MACEntry{MAC: sm, IP4: s4, IP6GUA: s6, IP6LLA: lla, LastSeen: time.Now()}
+		})
+		view("Host(zone)", func() interface{} {
+			return &packet.Host{Addr: packet.Addr{MAC: sm, IP: lla}, MACEntry: &packet.MACEntry{MAC: sm, IP6LLA: lla}, LastSeen: time.Now()}
+		})
+		view("IPNameEntry(zone)", func() interface{} { return packet.IPNameEntry{Addr: packet.Addr{MAC: sm, IP: lla}} })
+		view("NameEntry(expire in location)", func() interface{} {
+			return packet.NameEntry{Type: "dhcp", Name: "n", Expire: time.Unix(1709164800+int64(r), 0).In([]*time.Location{time.UTC, time.FixedZone("p", 36000), time.FixedZone("q", -12600)}[r%3])}
+		})
 		// NDP messages built by the independent builders (with ICMPv6 header)
 		tgt := s6.As16()
 		na := append([]byte{0x60, 0, 0, 0}, tgt[:]...)
